@@ -60,6 +60,10 @@ type FDCase struct {
 	Gid int `json:"gid,omitempty"`
 	// SysTotal: size of the complete systematic list (set in run 0 only, for the evidence)
 	SysTotal int `json:"sys_total,omitempty"`
+	// Steps, GSeed: family "guided" only — a coverage-guided campaign of Steps executions on
+	// one font, every choice drawn from GSeed (see campaign)
+	Steps int    `json:"steps,omitempty"`
+	GSeed uint64 `json:"gseed,omitempty"`
 }
 
 func applyByteFaults(img []byte, fs []ByteFault) []byte {
@@ -262,6 +266,24 @@ func (e *fdEngine) Generate(seed uint64, tier string, run int) (json.RawMessage,
 		c.Font = files[j%len(files)]
 		return json.Marshal(c)
 	}
+	if ticksAvailable && rk.Chance(0.012) {
+		// coverage-guided campaign (greybox search over fault sequences): many executions on one
+		// font of moderate size, fault lists evolved under coverage feedback from the
+		// instrumented build
+		c.Family = "guided"
+		for try := 0; try < 12; try++ {
+			c.Font = kernel.Pick(rk, files)
+			if n := len(corpus.Bytes(c.Font)); n > 0 && n <= 300<<10 {
+				break
+			}
+		}
+		c.Steps, c.GSeed = 150, seed
+		if tier != "quick" {
+			c.Steps = 400
+		}
+		c.Via = "parsettc"
+		return json.Marshal(c)
+	}
 	c.Family = "random"
 	// swarm: enabled fault kinds and rates
 	c.Font = kernel.Pick(rk, files)
@@ -312,8 +334,7 @@ func (e *fdEngine) Generate(seed uint64, tier string, run int) (json.RawMessage,
 	if nByte == 0 && nIO == 0 {
 		nByte = 1
 	}
-	kinds := []string{"trunc", "flip", "set16", "set32", "zero", "swap"}
-	kw := make([]int, len(kinds))
+	kw := make([]int, len(faultKinds))
 	for i := range kw {
 		if rk.Chance(0.7) {
 			kw[i] = rk.Range(1, 5)
@@ -321,80 +342,7 @@ func (e *fdEngine) Generate(seed uint64, tier string, run int) (json.RawMessage,
 	}
 	kw[rk.Intn(len(kw))] += 2
 	for i := 0; i < nByte; i++ {
-		bf := ByteFault{Kind: kinds[rf.Weighted(kw)]}
-		aimed := len(tables) > 0 && rf.Chance(0.75)
-		var t faultdisk.TableRef
-		if aimed {
-			t = kernel.Pick(rf, tables)
-		}
-		vals32 := []uint32{0, 1, 2, 0xFFFFFFFF, 0x7FFFFFFF, 0x80000000, uint32(len(img)), uint32(len(img) - 1), uint32(len(img) + 1), 0xFFFF, 0x10000}
-		vals16 := []uint32{0, 1, 2, 0xFFFF, 0x7FFF, 0x8000, 0xFFFE, 0x100}
-		switch bf.Kind {
-		case "trunc":
-			if aimed {
-				bf.Off = kernel.Pick(rf, []int{t.Offset, t.Offset + t.Length, t.Offset + rf.Intn(64), t.Offset + rf.Intn(t.Length+1)}) + kernel.Pick(rf, []int{0, 0, -1, 1, -2, 2, -4, 4})
-				bf.Aim = t.Tag
-			} else {
-				bf.Off = rf.Intn(len(img) + 1)
-			}
-		case "flip":
-			bf.Val = uint32(rf.Intn(8))
-			if aimed {
-				bf.Off, bf.Aim = t.Offset+rf.Intn(min(64, t.Length+1)), t.Tag+":header"
-				if rf.Chance(0.25) {
-					bf.Off, bf.Aim = t.DirEntry+rf.Intn(16), t.Tag+":direntry"
-				}
-			} else {
-				bf.Off = rf.Intn(len(img) + 1)
-			}
-		case "set16":
-			bf.Val = kernel.Pick(rf, vals16)
-			if aimed {
-				bf.Off, bf.Aim = t.Offset+2*rf.Intn(min(32, t.Length/2+1)), t.Tag+":header"
-				if rf.Chance(0.3) {
-					bf.Off = t.Offset + 2*rf.Intn(t.Length/2+1)
-					bf.Aim = t.Tag + ":body"
-				}
-			} else {
-				bf.Off = rf.Intn(len(img) + 1)
-			}
-		case "set32":
-			bf.Val = kernel.Pick(rf, vals32)
-			if aimed && len(tables) > 0 && rf.Chance(0.2) {
-				bf.Val = uint32(kernel.Pick(rf, tables).Offset) // another table's offset
-			}
-			if aimed {
-				switch rf.Intn(3) {
-				case 0:
-					bf.Off, bf.Aim = t.DirEntry+8+4*rf.Intn(2), t.Tag+":direntry" // offset or length
-				case 1:
-					bf.Off, bf.Aim = t.Offset+4*rf.Intn(min(16, t.Length/4+1)), t.Tag+":header"
-				default:
-					bf.Off, bf.Aim = t.Offset+4*rf.Intn(t.Length/4+1), t.Tag+":body"
-				}
-			} else {
-				bf.Off = rf.Intn(len(img) + 1)
-			}
-		case "zero":
-			bf.Len = kernel.Pick(rf, []int{16, 64, 512, 4096})
-			if aimed {
-				bf.Off, bf.Aim = t.Offset+rf.Intn(t.Length+1), t.Tag
-			} else {
-				bf.Off = rf.Intn(len(img)+1) / 512 * 512
-			}
-		case "swap":
-			if len(tables) >= 2 {
-				a, b := kernel.Pick(rf, tables), kernel.Pick(rf, tables)
-				bf.Off, bf.Off2, bf.Len = a.Offset, b.Offset, min(a.Length, b.Length)
-				bf.Aim = a.Tag + "<>" + b.Tag
-			} else {
-				bf.Kind, bf.Off = "trunc", rf.Intn(len(img)+1)
-			}
-		}
-		if bf.Off < 0 {
-			bf.Off = 0
-		}
-		c.Bytes = append(c.Bytes, bf)
+		c.Bytes = append(c.Bytes, genByteFault(rf, kw, img, tables))
 	}
 	if nIO > 0 {
 		calls := ioCalls(c.Font)
@@ -403,6 +351,88 @@ func (e *fdEngine) Generate(seed uint64, tier string, run int) (json.RawMessage,
 		}
 	}
 	return json.Marshal(c)
+}
+
+var faultKinds = []string{"trunc", "flip", "set16", "set32", "zero", "swap"}
+
+// genByteFault draws one stored-byte fault: kind by the weights kw, placement aimed (75%) at
+// table headers, directory records, boundaries and body fields of the parsed directory.
+func genByteFault(rf *kernel.Rand, kw []int, img []byte, tables []faultdisk.TableRef) ByteFault {
+	kinds := faultKinds
+	bf := ByteFault{Kind: kinds[rf.Weighted(kw)]}
+	aimed := len(tables) > 0 && rf.Chance(0.75)
+	var t faultdisk.TableRef
+	if aimed {
+		t = kernel.Pick(rf, tables)
+	}
+	vals32 := []uint32{0, 1, 2, 0xFFFFFFFF, 0x7FFFFFFF, 0x80000000, uint32(len(img)), uint32(len(img) - 1), uint32(len(img) + 1), 0xFFFF, 0x10000}
+	vals16 := []uint32{0, 1, 2, 0xFFFF, 0x7FFF, 0x8000, 0xFFFE, 0x100}
+	switch bf.Kind {
+	case "trunc":
+		if aimed {
+			bf.Off = kernel.Pick(rf, []int{t.Offset, t.Offset + t.Length, t.Offset + rf.Intn(64), t.Offset + rf.Intn(t.Length+1)}) + kernel.Pick(rf, []int{0, 0, -1, 1, -2, 2, -4, 4})
+			bf.Aim = t.Tag
+		} else {
+			bf.Off = rf.Intn(len(img) + 1)
+		}
+	case "flip":
+		bf.Val = uint32(rf.Intn(8))
+		if aimed {
+			bf.Off, bf.Aim = t.Offset+rf.Intn(min(64, t.Length+1)), t.Tag+":header"
+			if rf.Chance(0.25) {
+				bf.Off, bf.Aim = t.DirEntry+rf.Intn(16), t.Tag+":direntry"
+			}
+		} else {
+			bf.Off = rf.Intn(len(img) + 1)
+		}
+	case "set16":
+		bf.Val = kernel.Pick(rf, vals16)
+		if aimed {
+			bf.Off, bf.Aim = t.Offset+2*rf.Intn(min(32, t.Length/2+1)), t.Tag+":header"
+			if rf.Chance(0.3) {
+				bf.Off = t.Offset + 2*rf.Intn(t.Length/2+1)
+				bf.Aim = t.Tag + ":body"
+			}
+		} else {
+			bf.Off = rf.Intn(len(img) + 1)
+		}
+	case "set32":
+		bf.Val = kernel.Pick(rf, vals32)
+		if aimed && len(tables) > 0 && rf.Chance(0.2) {
+			bf.Val = uint32(kernel.Pick(rf, tables).Offset) // another table's offset
+		}
+		if aimed {
+			switch rf.Intn(3) {
+			case 0:
+				bf.Off, bf.Aim = t.DirEntry+8+4*rf.Intn(2), t.Tag+":direntry" // offset or length
+			case 1:
+				bf.Off, bf.Aim = t.Offset+4*rf.Intn(min(16, t.Length/4+1)), t.Tag+":header"
+			default:
+				bf.Off, bf.Aim = t.Offset+4*rf.Intn(t.Length/4+1), t.Tag+":body"
+			}
+		} else {
+			bf.Off = rf.Intn(len(img) + 1)
+		}
+	case "zero":
+		bf.Len = kernel.Pick(rf, []int{16, 64, 512, 4096})
+		if aimed {
+			bf.Off, bf.Aim = t.Offset+rf.Intn(t.Length+1), t.Tag
+		} else {
+			bf.Off = rf.Intn(len(img)+1) / 512 * 512
+		}
+	case "swap":
+		if len(tables) >= 2 {
+			a, b := kernel.Pick(rf, tables), kernel.Pick(rf, tables)
+			bf.Off, bf.Off2, bf.Len = a.Offset, b.Offset, min(a.Length, b.Length)
+			bf.Aim = a.Tag + "<>" + b.Tag
+		} else {
+			bf.Kind, bf.Off = "trunc", rf.Intn(len(img)+1)
+		}
+	}
+	if bf.Off < 0 {
+		bf.Off = 0
+	}
+	return bf
 }
 
 func min(a, b int) int {
@@ -555,6 +585,12 @@ func (w *fdWorld) guarded(what string, budget uint64, f func()) (v *kernel.Viola
 func (w *fdWorld) maxTicks() uint64 { return ^uint64(0) }
 
 func (e *fdEngine) Execute(raw json.RawMessage) (*kernel.Outcome, error) {
+	var probe struct {
+		Family string `json:"family"`
+	}
+	if json.Unmarshal(raw, &probe) == nil && probe.Family == "guided" {
+		return e.campaign(raw)
+	}
 	out, again, err := e.execute(raw, false)
 	if err == nil && again {
 		old := runtime.MemProfileRate
@@ -854,6 +890,21 @@ func (e *fdEngine) Shrink(raw json.RawMessage, class string, test func(json.RawM
 	if json.Unmarshal(raw, &c) != nil {
 		return raw
 	}
+	if c.Family == "guided" {
+		// the replay file is the explicit failing execution of the campaign, not the campaign
+		sub, ok := guidedFailure[kernel.HashBytes(raw)]
+		if !ok {
+			e.campaign(raw)
+			sub, ok = guidedFailure[kernel.HashBytes(raw)]
+		}
+		if !ok || !test(sub) {
+			return raw
+		}
+		raw = sub
+		if json.Unmarshal(raw, &c) != nil {
+			return raw
+		}
+	}
 	try := func(cand FDCase) bool {
 		b, err := json.Marshal(cand)
 		return err == nil && test(b)
@@ -893,4 +944,150 @@ func (e *fdEngine) Shrink(raw json.RawMessage, class string, test func(json.RawM
 		return raw
 	}
 	return b
+}
+
+// ------------------------------------------------------------------ coverage-guided campaigns
+
+// guidedFailure remembers, per campaign case, the explicit execution that violated an oracle.
+var guidedFailure = map[uint64]json.RawMessage{}
+
+// campaign is a greybox search over fault sequences on one font: a population of fault lists
+// (starting from the fault-free image) is evolved by adding, perturbing, neighbouring and
+// dropping stored-byte faults and occasionally a transient I/O fault; a child joins the
+// population when it reaches an instrumented site (yield point or branch) that no earlier
+// execution of the campaign reached, or a new order of magnitude of steps or allocation.
+// Every choice is drawn from the case's seed and the feedback is a deterministic function of
+// the executions, so a campaign replays exactly; a violation is reported as the explicit
+// failing execution (font + fault list), which is what gets minimised and stored.
+func (e *fdEngine) campaign(raw json.RawMessage) (*kernel.Outcome, error) {
+	var c FDCase
+	if err := json.Unmarshal(raw, &c); err != nil {
+		return nil, err
+	}
+	out := &kernel.Outcome{}
+	out.Count("family.guided", 1)
+	img := corpus.Bytes(c.Font)
+	_, tables := faultdisk.ParseDirectory(img)
+	r := kernel.NewRand(c.GSeed, "guided")
+	type member struct {
+		bytes []ByteFault
+		io    []faultdisk.ReadFault
+	}
+	pop := []member{{}}
+	var seen [1 << 16]uint8
+	feats := map[string]bool{}
+	kw := []int{1, 3, 5, 4, 2, 0} // trunc flip set16 set32 zero swap
+	vals16 := []uint32{0, 1, 2, 0xFFFF, 0x7FFF, 0x8000, 0xFFFE, 0x100, 0x3FFF, 0x4000}
+	calls := ioCalls(c.Font)
+	var trace uint64
+	for step := 0; step <= c.Steps; step++ {
+		var child member
+		if step > 0 {
+			// parent: recent members (which reached something new last) are favoured
+			pi := len(pop) - 1 - r.Intn(min(len(pop), 8))
+			if r.Chance(0.3) {
+				pi = r.Intn(len(pop))
+			}
+			par := pop[pi]
+			child.bytes = append([]ByteFault(nil), par.bytes...)
+			child.io = append([]faultdisk.ReadFault(nil), par.io...)
+			switch m := r.Intn(10); {
+			case m < 4 || len(child.bytes) == 0:
+				child.bytes = append(child.bytes, genByteFault(r, kw, img, tables))
+			case m < 6:
+				// perturb the value or the position of one fault
+				f := &child.bytes[r.Intn(len(child.bytes))]
+				switch r.Intn(4) {
+				case 0:
+					f.Val = kernel.Pick(r, vals16)
+				case 1:
+					f.Val += uint32(kernel.Pick(r, []int{1, 2, 4, 0xFFFF, 0xFFFE}))
+					if f.Kind == "set16" {
+						f.Val &= 0xFFFF
+					}
+				case 2:
+					f.Off += kernel.Pick(r, []int{-8, -4, -2, -1, 1, 2, 4, 8})
+				default:
+					f.Val = uint32(r.Intn(len(img) + 2))
+					if f.Kind == "set16" {
+						f.Val &= 0xFFFF
+					}
+				}
+				if f.Off < 0 {
+					f.Off = 0
+				}
+			case m < 8:
+				// a second field of the same structure: consistent multi-field corruption
+				f := child.bytes[r.Intn(len(child.bytes))]
+				child.bytes = append(child.bytes, ByteFault{Kind: "set16", Off: f.Off + kernel.Pick(r, []int{-8, -6, -4, -2, 2, 4, 6, 8, 10, 12}), Val: kernel.Pick(r, vals16), Aim: f.Aim})
+				if n := len(child.bytes); child.bytes[n-1].Off < 0 {
+					child.bytes[n-1].Off = 0
+				}
+			case m < 9:
+				if len(child.bytes) >= 2 {
+					i := r.Intn(len(child.bytes))
+					child.bytes = append(child.bytes[:i], child.bytes[i+1:]...)
+				} else {
+					child.bytes = append(child.bytes, genByteFault(r, kw, img, tables))
+				}
+			default:
+				child.io = []faultdisk.ReadFault{{Call: r.Intn(calls + 2), Kind: kernel.Pick(r, []string{"eio", "eof", "short"}), N: r.Range(1, 64)}}
+			}
+			if len(child.bytes) > 6 {
+				child.bytes = child.bytes[len(child.bytes)-6:]
+			}
+		}
+		sub := FDCase{Family: "random", Font: c.Font, Bytes: child.bytes, IO: child.io, QSeed: c.QSeed, Via: "parsettc"}
+		sraw, err := json.Marshal(sub)
+		if err != nil {
+			return nil, err
+		}
+		covReset()
+		so, err := e.Execute(sraw)
+		if err != nil {
+			return nil, err
+		}
+		out.Count("op.guided_executions", 1)
+		for k, v := range so.Counters {
+			if strings.HasPrefix(k, "max.") {
+				if v > out.Counters[k] {
+					out.Counters[k] = v
+				}
+			} else if k != "family.random" {
+				out.Count(k, v)
+			}
+		}
+		out.States = append(out.States, so.States...)
+		trace = kernel.SplitMix64(trace ^ so.Trace ^ kernel.HashBytes(sraw))
+		if so.Violation != nil {
+			guidedFailure[kernel.HashBytes(raw)] = sraw
+			out.Violation = so.Violation
+			out.Violation.Detail += fmt.Sprintf(" [execution %d of a coverage-guided campaign on %s, %d stored-byte faults]", step, c.Font, len(child.bytes))
+			out.Nontrivial = true
+			out.Trace = trace
+			return out, nil
+		}
+		fresh := covNew(&seen)
+		for _, k := range []string{"ticks", "max.alloc_permille_of_budget"} {
+			b := 0
+			for v := so.Counters[k]; v > 0; v >>= 2 {
+				b++
+			}
+			if key := fmt.Sprintf("%s:%d", k, b); !feats[key] {
+				feats[key] = true
+				fresh++
+			}
+		}
+		if fresh > 0 && step > 0 {
+			pop = append(pop, child)
+			out.Count("guided.sites_first_reached_by_a_faulted_image", int64(fresh))
+			if len(child.bytes) >= 2 {
+				out.Count("probe.guided_stacked_faults_reached_new_code", 1)
+			}
+		}
+	}
+	out.Count("guided.population", int64(len(pop)))
+	out.Nontrivial = len(pop) > 1
+	out.Trace = trace
+	return out, nil
 }
